@@ -303,6 +303,11 @@ func dialExec(s core.Spec) core.Exec {
 	t.N(bodyAvail)
 	sent := conn != nil && conn.written.Len() > 0
 	t.Bool(sent)
+	if perr == nil {
+		t.Str(pu.RequestURI())
+	} else {
+		t.Str("")
+	}
 
 	tags := []string{}
 	switch {
@@ -340,7 +345,7 @@ func dialExec(s core.Spec) core.Exec {
 		if v := reqSeen.Hdr["Host"]; len(v) > 0 {
 			host = v[0]
 		}
-		t.Str(host)
+		t.Str(reqSeen.Target).Str(host)
 		hk := []string{}
 		for k := range reqSeen.Hdr {
 			if k != "Host" && k != "User-Agent" {
@@ -497,6 +502,11 @@ var dialClauses = map[int]string{
 	121: "a reply that proves acceptance (well-formed token lists) was refused with ErrBadHandshake",
 	122: "more than 1024 body bytes kept with ErrBadHandshake",
 	123: "the URL / header was refused, yet a request was sent",
+	124: "the request target is not the URL's path and query",
+	125: "Upgrade / Connection / Sec-WebSocket-Version of the request are not the library's values exactly once",
+	126: "the request does not carry exactly one fresh 16-byte Sec-WebSocket-Key",
+	127: "permessage-deflate offered although disabled, or not offered although enabled",
+	128: "configured subprotocols are not what the request offers",
 	199: "malformed observation",
 }
 
